@@ -45,9 +45,20 @@ enum R {
     Multi,
 }
 
+/// How the writing side reaches its socket.
+#[derive(Clone, Copy, Debug, PartialEq)]
+enum Via {
+    Direct,
+    /// through the borrowed halves of `split()`; the stream stays open until the reader saw end of stream
+    Borrowed,
+    /// through the halves of `into_split()`; the read half stays open until the reader saw end of stream
+    Owned,
+}
+
 #[derive(Clone, Debug)]
 struct Chan {
     kind: Kind,
+    via: Via,
     writes: Vec<(W, usize)>,
     reads: Vec<(R, usize)>,
 }
@@ -81,7 +92,16 @@ fn gen_chan() -> Chan {
             (r, 1 + sim::range("r.len", 0, 200) as usize)
         })
         .collect();
-    Chan { kind, writes, reads }
+    let via = if kind == Kind::Pipe {
+        Via::Direct
+    } else {
+        match sim::choose("chan.via", 3) {
+            0 => Via::Direct,
+            1 => Via::Borrowed,
+            _ => Via::Owned,
+        }
+    };
+    Chan { kind, via, writes, reads }
 }
 
 enum Rd {
@@ -195,6 +215,57 @@ async fn write_chunk(w: &mut Wr, how: W, data: &[u8], errs: &Errs) -> bool {
     true
 }
 
+/// The writes of a channel through a split half, then its shutdown; afterwards the reader must reach end of
+/// stream although the socket itself is still open.
+async fn half_writes<T: AsyncWrite>(w: &mut T, writes: &[(W, usize)], data: &[Vec<u8>], errs: &Errs) -> bool {
+    for ((how, _), d) in writes.iter().zip(data.iter()) {
+        let mut off = 0;
+        let mut first = true;
+        while off < d.len() || (first && d.is_empty()) {
+            first = false;
+            let rest = d[off..].to_vec();
+            let want = rest.len();
+            let r = match how {
+                W::Vectored => {
+                    let cut = rest.len() / 3;
+                    w.write_vectored([rest[..cut].to_vec(), Vec::new(), rest[cut..].to_vec()]).await.0
+                }
+                _ => w.write(rest).await.0,
+            };
+            match r {
+                Ok(n) if n > want => {
+                    errs.push("count", format!("write reported {n} bytes for a {want}-byte buffer"));
+                    return false;
+                }
+                Ok(0) if want > 0 => {
+                    errs.push("count", "write of a non-empty buffer reported 0 bytes");
+                    return false;
+                }
+                Ok(n) => off += n,
+                Err(e) => {
+                    errs.push("io-error", format!("{how:?} through a split half failed: {e}"));
+                    return false;
+                }
+            }
+        }
+    }
+    if let Err(e) = w.shutdown().await {
+        errs.push("io-error", format!("shutdown of a write half failed: {e}"));
+        return false;
+    }
+    true
+}
+
+async fn wait_eof(eof: &Rc<RefCell<Vec<bool>>>, ci: usize, errs: &Errs) {
+    for _ in 0..500 {
+        if eof.borrow()[ci] {
+            return;
+        }
+        compio_runtime::time::sleep(std::time::Duration::from_micros(100)).await;
+    }
+    errs.push("no-eof", format!("channel {ci}: the write half was shut down 50 ms ago and the socket is still open, but the reader has not reached end of stream"));
+}
+
 fn streams() -> RunResult {
     let cfg = simkernel::KConfig::draw();
     let nchan = 1 + sim::range("chans", 0, 2) as usize;
@@ -226,7 +297,48 @@ fn streams() -> RunResult {
                     };
                     let (errs_w, data) = (errs.clone(), payloads[ci].clone());
                     let writes = c.writes.clone();
+                    let via = c.via;
+                    let eof_w = eof.clone();
                     tasks.push(compio_runtime::spawn(async move {
+                        match via {
+                            Via::Direct => {}
+                            Via::Borrowed => {
+                                let ok = match &wr {
+                                    Wr::Unix(x) => half_writes(&mut x.split().1, &writes, &data, &errs_w).await,
+                                    Wr::Tcp(x) => half_writes(&mut x.split().1, &writes, &data, &errs_w).await,
+                                    Wr::Pipe(_) => unreachable!(),
+                                };
+                                if ok {
+                                    wait_eof(&eof_w, ci, &errs_w).await;
+                                }
+                                return;
+                            }
+                            Via::Owned => {
+                                let ok = match wr {
+                                    Wr::Unix(x) => {
+                                        let (_rh, mut wh) = x.into_split();
+                                        let ok = half_writes(&mut wh, &writes, &data, &errs_w).await;
+                                        drop(wh);
+                                        if ok {
+                                            wait_eof(&eof_w, ci, &errs_w).await;
+                                        }
+                                        ok
+                                    }
+                                    Wr::Tcp(x) => {
+                                        let (_rh, mut wh) = x.into_split();
+                                        let ok = half_writes(&mut wh, &writes, &data, &errs_w).await;
+                                        drop(wh);
+                                        if ok {
+                                            wait_eof(&eof_w, ci, &errs_w).await;
+                                        }
+                                        ok
+                                    }
+                                    Wr::Pipe(_) => unreachable!(),
+                                };
+                                let _ = ok;
+                                return;
+                            }
+                        }
                         for ((how, _), d) in writes.iter().zip(data.iter()) {
                             if !write_chunk(&mut wr, *how, d, &errs_w).await {
                                 return;
